@@ -10,9 +10,12 @@
 // spec/MetaStore.tla.
 //
 // Script (ndjson):
-//   reset : store (leveldb|leveldb2|leveldb3), via (direct|wrapper), paths [[dir,name]..], dirs [dir..]
+//   reset : store (leveldb|leveldb2|leveldb3), via (direct|wrapper|mounted), paths [[dir,name]..], ldirs [dir..]
+//           (a dir is an array of names; via "mounted": the wrapper with a second leveldb store
+//           mounted, through FilerStorePathTranlator, at the execution's directory d)
 //   insert/update : dir, name, e {seed, chunks, fidobj, gz, hl, content, remote, ext, isdir}
 //   delete : dir, name
+//   deltree : dir                      (DeleteFolderChildren)
 // After every operation the driver looks up every path and lists every
 // directory (event "snap").
 package main
@@ -325,14 +328,24 @@ func main() {
 		}
 		// every execution lives below its own root so that the stores can stay open
 		root := fmt.Sprintf("%s/x%dy", tr.S(rs, "pbase"), xi)
-		real := func(dir string) string { return root + dir }
+		real := func(dir interface{}) string { return root + "/" + strings.Join(tr.Strs(dir), "/") }
+		var mounted *leveldb.LevelDBStore
+		if tr.S(rs, "via") == "mounted" {
+			mounted = &leveldb.LevelDBStore{}
+			if err := mounted.Initialize(conf{"dir": fmt.Sprintf("%s/mnt%d", tmpRoot, xi)}, ""); err != nil {
+				tr.Fatal("initialize mounted store: %v", err)
+			}
+			t.wrapper.AddPathSpecificStore(root+"/d", fmt.Sprintf("m%d", xi), mounted)
+			st = t.wrapper
+		}
 		w.Emit(rs)
 		snap := func() {
 			finds := []tr.Ev{}
 			for _, p := range tr.List(rs["paths"]) {
-				dn := tr.Strs(p)
-				f := tr.Ev{"dir": dn[0], "name": dn[1], "found": false, "got": "", "err": ""}
-				want := util.NewFullPath(real(dn[0]), dn[1])
+				dn := tr.List(p)
+				name, _ := dn[1].(string)
+				f := tr.Ev{"dir": dn[0], "name": name, "found": false, "got": "", "err": ""}
+				want := util.NewFullPath(real(dn[0]), name)
 				e, err := st.FindEntry(ctx, want)
 				if err == filer_pb.ErrNotFound {
 				} else if err != nil {
@@ -347,7 +360,7 @@ func main() {
 				finds = append(finds, f)
 			}
 			lists := []tr.Ev{}
-			for _, d := range tr.Strs(rs["ldirs"]) {
+			for _, d := range tr.List(rs["ldirs"]) {
 				for _, api := range []string{"plain", "prefixed"} {
 					items := []tr.Ev{}
 					each := func(e *filer.Entry) bool {
@@ -376,7 +389,7 @@ func main() {
 				continue
 			}
 			pan := tr.Guard(func() {
-				dir, name := tr.S(e, "dir"), tr.S(e, "name")
+				dir, name := e["dir"], tr.S(e, "name")
 				switch ev {
 				case "insert", "update":
 					d, _ := e["e"].(map[string]interface{})
@@ -389,6 +402,8 @@ func main() {
 					}
 				case "delete":
 					e["err"] = errText(st.DeleteEntry(ctx, util.NewFullPath(real(dir), name)))
+				case "deltree":
+					e["err"] = errText(st.DeleteFolderChildren(ctx, util.FullPath(real(dir))))
 				default:
 					tr.Fatal("unknown op %v", ev)
 				}
@@ -404,6 +419,10 @@ func main() {
 				w.Emit(tr.Ev{"ev": "panic", "op": "snap", "msg": span})
 				break
 			}
+		}
+		if mounted != nil {
+			mounted.Shutdown()
+			os.RemoveAll(fmt.Sprintf("%s/mnt%d", tmpRoot, xi))
 		}
 	}
 	for _, t := range targets {
